@@ -444,12 +444,18 @@ def _execute(world, pre, r, do):
 
     S = addressed_of(world, pre, r)
     if do == "mk_env":
-        env = Envelope()
+        if r.get("explicit"):
+            from photon_weave.state.fock import Fock
+            from photon_weave.state.polarization import Polarization
+
+            env = Envelope(fock=Fock(), polarization=Polarization(PolarizationLabel(r.get("pol", "H"))))
+        else:
+            env = Envelope()
         if r.get("fock", 0):
             env.fock.state = int(r["fock"])
         if r.get("dims"):
             env.fock.dimensions = int(r["dims"])
-        if r.get("pol", "H") != "H":
+        if r.get("pol", "H") != "H" and not r.get("explicit"):
             env.polarization.state = PolarizationLabel(r["pol"])
         world.add_env(r["name"], env, r["client"])
         return ExecResult("ok", addressed=[])
@@ -508,12 +514,13 @@ def _execute(world, pre, r, do):
             world.user_arrays.append(("kraus", a, _digest(a)))
         subs = [world.sub(n) for n in r["on"]]
         entry = r["entry"]
+        kw = {"identity_check": False} if r.get("idc") is False else {}
         if entry == "state":
-            ret = subs[0].apply_kraus(arrs)
+            ret = subs[0].apply_kraus(arrs, **kw)
         elif entry == "env":
             ret = world.envs[r["env"]].apply_kraus(arrs, *subs)
         else:
-            ret = world.ces[r["ce"]].apply_kraus(arrs, *subs)
+            ret = world.ces[r["ce"]].apply_kraus(arrs, *subs, **kw)
         return ExecResult("ok", ret=ret, addressed=S, info={"mats": mats})
     if do == "povm":
         dims = _dims_of(pre, r["on"])
